@@ -777,6 +777,9 @@ class ExcelCompiler:
             if ref_cell is not None:
                 # the reference depends on the range it refers to
                 new_nodes.append(ref_cell)
+                # and like any range it is evaluated when built, since
+                # _reset() does not walk through nodes with no value
+                self.range_todos.append(str(address))
         else:
             new_nodes = build_cell(excel_data)
 
